@@ -63,6 +63,21 @@ def gen_cases(ctx, thorough):
                         cases.append((idx, 0 if mode == "std" else 1, [D(one_mb_picture(mode, q, mb).to_bytes())]))
                         descs[idx] = {"mode": mode, "ptype": "I", "w": 16, "h": 16, "quant": q, "tr": 3, "mbs": [mb], "what": "level"}
                         idx += 1
+    # (2b) EVERY codable level of every escape form through the block parser (a level the parser refuses or misreads never
+    # reaches the dequantisation kernel): +-1..127 in the 8-bit form (standard and Sorenson version 0), -63..63 in the 7-bit
+    # and -1023..1023 in the 11-bit form of Sorenson version 1; the quantizer varies with the level
+    allforms = [("v0", "esc", range(-127, 128)), ("std", "esc", range(-127, 128)), ("v1", "esc7", range(-63, 64)), ("v1", "esc11", range(-1023, 1024))]
+    for mode, form, levels in allforms:
+        for lv in levels:
+            if lv == 0:
+                continue
+            q = 1 + (abs(lv) * 7 + (3 if lv < 0 else 0)) % 31
+            run = (abs(lv) * 5) % 63
+            blocks = [(60, [(form, 1, run, lv)])] + [(100, [])] * 5
+            mb = {"kind": "coded", "type": S.INTRA, "cbp": [1, 0, 0, 0, 0, 0], "blocks": blocks}
+            cases.append((idx, 0 if mode == "std" else 1, [D(one_mb_picture(mode, q, mb).to_bytes())]))
+            descs[idx] = {"mode": mode, "ptype": "I", "w": 16, "h": 16, "quant": q, "tr": 3, "mbs": [mb], "what": "every-level"}
+            idx += 1
     # (3) every INTRADC code as the DC of block 0 (0 and 128 must be rejected)
     for c in range(256):
         blocks = [(c, [])] + [(100, [])] * 5
@@ -124,7 +139,7 @@ def run(ctx):
             broken.append("correspondence picture: model differs from implementation on a %s case" % d["what"])
         else:
             nontriv.add(idx)
-    ctx.count("one-macroblock pictures through decode_next_picture (31 x 4 quantizer updates x 2 modes; all 31 x 4 x 4 two-step and the three-step sequences around the rails; levels in every escape form; 256 INTRADC codes)",
+    ctx.count("one-macroblock pictures through decode_next_picture (31 x 4 quantizer updates x 2 modes; all 31 x 4 x 4 two-step and the three-step sequences around the rails; levels in every escape form, every codable level of each form once; 256 INTRADC codes)",
               len(cases), nontriv, sample={"q": 1, "dquant": -2, "block0": [60, [["esc", 1, 2, 30]]]}, exhaustive=True)
     ctx.cov["rule"] = "kernel sweep: exhaustive over the stated domain; pictures: one per listed combination; non-trivial = accepted and equal to the reference reconstruction and to the model"
     ctx.cov["exhaustive"] = True
